@@ -112,6 +112,16 @@ def gen(tier, seed, info):
                     yield "WI cb1=%s cb2=%s cb3=- %s %s" % (b1, b2, regs, tail)
     info["io_cases"] = nio
     n += nio
+    # ---- objects that outlive the instance: wr = the application keeps a reference on the root window and uses the window
+    #      after tickit_unref; zw = a terminal's place in the SIGWINCH observer list (observe A, B; stop A; observe A, C)
+    nlt = 0
+    for pre in ["", "t0:2:1 r0", "l2:1", "t1000:6:1 wi0:1:6:1 r0", "cb1=l0:2 t0:0:1 r0", "ws10:2:1 wp2:1"]:
+        for tok in ["wr", "zw", "wr zw"]:
+            nlt += 2
+            yield "cb2=- %s %s" % (tok, pre)
+            yield "cb2=- %s %s r0" % (pre, tok)
+    info["lifetime_cases"] = nlt
+    n += nlt
     info["chain_cases"] = nch
     n += nch
     # ---- cancel whose UNBIND notification registers a replacement (re-entrancy of tickit_watch_cancel)
